@@ -23,6 +23,39 @@ import (
 	_ "verif/props"
 )
 
+// kindTable lists per kind of case the CPU budget of the watchdog and the most
+// expensive case observed in this run (kinds are grouped by their class, the
+// part before the parser type).
+func kindTable(budget map[string]int, maxms map[string]int64) map[string]any {
+	type row struct {
+		Budget int   `json:"cpu_budget_s"`
+		MaxMs  int64 `json:"most_expensive_case_cpu_ms"`
+	}
+	out := map[string]any{}
+	agg := map[string]*row{}
+	for k, b := range budget {
+		class := k
+		if i := strings.LastIndex(k, ":"); i >= 0 {
+			class = k[:i] + ":*"
+		}
+		r := agg[class]
+		if r == nil {
+			r = &row{}
+			agg[class] = r
+		}
+		if b > r.Budget {
+			r.Budget = b
+		}
+		if maxms[k] > r.MaxMs {
+			r.MaxMs = maxms[k]
+		}
+	}
+	for k, r := range agg {
+		out[k] = r
+	}
+	return out
+}
+
 func main() {
 	if len(os.Args) < 2 {
 		fmt.Fprintln(os.Stderr, "usage: verif run|worker|replay|list ...")
@@ -159,8 +192,15 @@ func cmdWorker(args []string) int {
 		c := p.Gen(*kind, idx, *seed, *tier)
 		vs := runCase(p, &c, st)
 		st.Evaluations++
-		if ms := (cpuMicros() - t0) / 1000; ms > st.MaxCaseCPUms {
+		ms := (cpuMicros() - t0) / 1000
+		if ms > st.MaxCaseCPUms {
 			st.MaxCaseCPUms, st.MaxCaseKind, st.MaxCaseIdx = ms, *kind, idx
+		}
+		if st.MaxKindCPUms == nil {
+			st.MaxKindCPUms = map[string]int64{}
+		}
+		if ms >= st.MaxKindCPUms[*kind] {
+			st.MaxKindCPUms[*kind] = ms
 		}
 		jmu.Lock()
 		caseStart.Store(-1)
@@ -655,7 +695,7 @@ func cmdRun(args []string) int {
 		"distinct_transitions": len(total.Transitions),
 		"not_observed":         notObserved,
 		"shards":               len(shards),
-		"most_expensive_case":  map[string]any{"cpu_ms": total.MaxCaseCPUms, "kind": total.MaxCaseKind, "idx": total.MaxCaseIdx, "per_case_cpu_budget_s": kindCPU(total.MaxCaseKind), "per_kind_cpu_budget_s": kindBudgets},
+		"most_expensive_case":  map[string]any{"cpu_ms": total.MaxCaseCPUms, "kind": total.MaxCaseKind, "idx": total.MaxCaseIdx, "per_case_cpu_budget_s": kindCPU(total.MaxCaseKind), "per_kind": kindTable(kindBudgets, total.MaxKindCPUms)},
 		"exhaustive":           exhaustive,
 	}
 	if len(inconclusive) > 0 {
